@@ -807,6 +807,31 @@ class RealMgrWorld(World):
         self.env.attrs["_formula_manager"] = self.mgr
         return self
 
+    def new_environment(self):
+        """A further environment of the same interpretation: its own type manager, type checker and (real) formula
+        manager.  Returns (env, mgr); `using(env, mgr)` makes it the one the world's helpers build in."""
+        it = self.it
+        env = AObj(ENV, {"enable_infix_notation": True, "enable_div_by_0": True, "allow_empty_var_names": False, "dwf": {},
+                         "_fvo": AObj("pysmt.oracles.FreeVarsOracle", {}, tag="fvo-model"), "_factory": None})
+        env.attrs["_type_manager"] = it.instantiate(ClassRef("pysmt.typing.TypeManager"), [env], {})
+        env.attrs["_stc"] = it.instantiate(ClassRef(STC), [env], {})
+        mgr = it.instantiate(ClassRef(FM), [env], {})
+        env.attrs["_formula_manager"] = mgr
+        return env, mgr
+
+    def using(self, env, mgr):
+        world = self
+
+        class _Ctx(object):
+            def __enter__(self_):
+                self_.saved = (world.env, world.mgr)
+                world.env, world.mgr = env, mgr
+
+            def __exit__(self_, *a):
+                world.env, world.mgr = self_.saved
+                return False
+        return _Ctx()
+
     def mk_node(self, node_type, args, payload):
         if not self.real_manager:       # during World.attach only
             return World.mk_node(self, node_type, args, payload)
